@@ -1,7 +1,7 @@
 (* C07/Properties.v — property theorems only.  Model: C07/Model.v (the code after fix commits
    e89b171, 07b228c; with the known finding F-C07a, whose fix 311264d was reverted by 0819a3f). *)
 From Coq Require Import String Lia.
-From RM Require Import C06.Model C06.Proofs C06.Proofs5 C06.Driver C07.Model C07.Proofs C07.Proofs2 C07.Proofs3 C07.Proofs4 C07.Text C07.Proofs5 C07.Walker C07.Proofs6 C07.Proofs7.
+From RM Require Import C06.Model C06.Proofs C06.Proofs5 C06.Driver C07.Model C07.Proofs C07.Proofs2 C07.Proofs3 C07.Proofs4 C07.Text C07.Proofs5 C07.Walker C07.Proofs6 C07.Proofs7 C07.Proofs8 C07.Proofs9 C07.Proofs10.
 From RM Require C09.Grammar.
 From RM Require C08.Model C08.Proofs.
 Open Scope Z_scope.
@@ -259,6 +259,33 @@ Theorem c07_fpo_recursion_chain :
 Proof. exact fpo_recursion_chain. Qed.
 Print Assumptions c07_fpo_recursion_chain.
 
+(* ---- round 4: the text route (C09's byte-level parser state -> finish -> walk_frame_table, C07/Text.v) and the record
+   route (stack_win_line on parsed fields -> win_table -> walk_frame, the object of the theorems above) ---- *)
+(* the STACK WIN table C09's `finish` builds (insert_win_stack_info + into_rangemap_safe + RangeMap over C09's own record
+   type with run-length encoded program strings), mapped through conv_win, IS this directory's win_table of the converted
+   records, and lookups commute — for records whose program strings are in run-length normal form (counts >= 1,
+   neighbouring runs differ: what the line parsers return), on which C09's record equality and this directory's coincide *)
+Theorem c07_text_tables_agree :
+  forall (ws : list C09.Grammar.win_info) (t : list (C08.Model.range * C09.Grammar.win_info)),
+    Forall wi_nf ws ->
+    (do l <- C09.Grammar.win_collect [] ws; C08.Model.build_p C09.Grammar.wi_eqb l) = Ret t ->
+    win_table (map conv_win ws) = Ret (mapv conv_win t) /\
+    forall x, C08.Model.rm_get (mapv conv_win t) x = option_map conv_win (C08.Model.rm_get t x).
+Proof. intros ws t H1 H2. split; [exact (win_table_conv ws t H1 H2)|exact (win_lookup_conv t)]. Qed.
+Print Assumptions c07_text_tables_agree.
+
+(* hence, for every parser state whose file has no STACK CFI records: SymbolFile::walk_frame as the text route computes it
+   equals walk_frame of the record route on the same records — every walker, profile, environment, start state *)
+Theorem c07_text_route_agrees :
+  forall (S : Type) (ops : wops S) p E (ps : C09.Grammar.pst) (t : C09.Grammar.table) (s : S),
+    C09.Grammar.finish ps = Ret t ->
+    Forall wi_nf (C09.Grammar.p_win_fd ps) -> Forall wi_nf (C09.Grammar.p_win_fpo ps) ->
+    C09.Grammar.t_cfi t = [] ->
+    walk_frame_table ops p E t s =
+    walk_frame ops p E (mkSym (map conv_win (rev (C09.Grammar.p_win_fd ps))) (map conv_win (rev (C09.Grammar.p_win_fpo ps))) None) s.
+Proof. exact text_route_agrees. Qed.
+Print Assumptions c07_text_route_agrees.
+
 (* ---- non-vacuity ---- *)
 Example c07_nonvacuous_doc_example :
   (* the worked example of the module docs: ebp = mem[16], esp = 24, eip = mem[20] *)
@@ -341,3 +368,22 @@ Example c07_nonvacuous_recursion_walk :
   fpo_walk 10 mem (fun sp => (2147483648 <=? sp) && (sp <? 2147483700)) lookup [] (mkX 1073745936 2147483648 7) =
     [mkX 1073750096 2147483656 7; mkX 1073750096 2147483668 7; mkX 1073750096 2147483680 7; mkX 1073754112 2147483692 7].
 Proof. vm_compute. reflexivity. Qed.
+
+Example c07_nonvacuous_text_route :
+  (* a three-line symbol file goes through C09's line grammar; its records are in normal form and the theorem applies *)
+  match parse_lines C09.Grammar.init_pst
+          (map C09.Grammar.to_rle [bs "MODULE windows x86 ABCD1234 m"; bs "STACK WIN 4 64 10 0 0 8 4 c 0 1 $eip .raSearch ^ = $esp .raSearch 4 + =";
+                                   bs "STACK WIN 0 100 10 0 0 0 0 8 0 0 0"]) with
+  | Some ps =>
+      Forall wi_nf (C09.Grammar.p_win_fd ps) /\ Forall wi_nf (C09.Grammar.p_win_fpo ps) /\
+      length (C09.Grammar.p_win_fd ps) = 1%nat /\ length (C09.Grammar.p_win_fpo ps) = 1%nat /\
+      match C09.Grammar.finish ps with Ret t => C09.Grammar.t_cfi t = [] | _ => False end
+  | None => False
+  end.
+Proof.
+  vm_compute. split; [|split; [|repeat split]].
+  - constructor; [|constructor]. split.
+    + repeat constructor; intro Hc; discriminate Hc.
+    + cbn. repeat split; intro Hc; discriminate Hc.
+  - constructor; [exact I|constructor].
+Qed.
